@@ -162,13 +162,18 @@ def cases(draw, gate=None):
     gel = draw(world.gel_graphs([e["id"] for e in eps])) if draw(st.sampled_from([True, True, False])) else None
     words = [w for e in eps for w in (e.get("text") or "").lower().split()] or world.VOCAB[:4]
     glabels = [n["label"] for g in graphs.values() for n in g["nodes"] if n["label"]]
-    n = draw(st.integers(2, 4))
+    n = draw(st.integers(2, 5))
     script = []
     for _ in range(n):
         text_words = draw(st.lists(st.sampled_from(words + world.VOCAB[:4]), min_size=1, max_size=3))
         if glabels:
             text_words.append(draw(st.sampled_from(glabels)))
-        script.append({"agent": draw(st.sampled_from(["A", "B"])), "text": " ".join(text_words)})
+        step = {"agent": draw(st.sampled_from(["A", "B"])), "text": " ".join(text_words),
+                "adv_ms": draw(st.sampled_from([1000, 60000, 60000, 400000]))}
+        if script and draw(st.sampled_from([True, False])):
+            # repeat an earlier request verbatim: gives caches (and their TTLs / budgets) something to do
+            step = dict(draw(st.sampled_from(script)), adv_ms=step["adv_ms"])
+        script.append(step)
     # gated subtree
     sub = {}
     aggressive = draw(_B)
@@ -235,8 +240,10 @@ def run_script(case, overrides):
         eng.state["_planner_reflection_flag"] = True  # plan flag forced through the documented channel
         cfg = eng.cfg(overrides)
         obs = {"lines": [], "digests": [], "exc": None, "work": {"t1": False, "t2": 0, "utter": False}}
+        now = world.NOW_MS
         for i, st_ in enumerate(case["script"], 1):
-            r = eng.turn(st_["agent"], st_["text"], cfg, i, world.NOW_MS + i * 60000)
+            now += int(st_.get("adv_ms", 60000))
+            r = eng.turn(st_["agent"], st_["text"], cfg, i, now)
             if r["exc"] is not None:
                 obs["exc"] = f"turn {i}: {r['exc']}"
                 break
